@@ -262,3 +262,96 @@ theorem opSend_at_limit (w : World) (c r tag : Nat) (C : Client) (hC : getCl w c
             · rw [k1.getCl_eq] at hC'; exact ⟨C', hC', rfl, rfl⟩
 
 end Iox2.ReqRes
+
+namespace Iox2.ReqRes
+
+/-- receiving a chunk and giving it back (what `Server::receive` does with a request it skips, and
+`PendingResponse::receive` with a response of another request): the borrow counter is back where it
+was and the chunk is on its way home in the completion queue -/
+theorem recv_then_release (w : World) (me : Pid) (R : Rcv) (key ch : Nat) (f : Pid) (c : Conn) (x : Chan) (e : Entry)
+    (rest : List Entry) (hR : getRcv w me = some R) (hk : smGet R.storage key = some f) (hc : getConn w f me = some c)
+    (hx : c.chans[ch]? = some x) (hb : x.borrow < c.maxBorrow) (hs : x.sub = e :: rest)
+    (hroom : x.comp.length < c.cap + c.maxBorrow + 1) :
+    ∃ h m, (recvFromConn w me R key ch).2 = .some h m ∧ m = e.msg ∧
+      ∃ c' x', getConn (rcvRelease (recvFromConn w me R key ch).1 me h) f me = some c' ∧ c'.chans[ch]? = some x' ∧
+        x'.borrow = x.borrow ∧ x'.comp = x.comp ++ [e.chunk] ∧ x'.sub = rest := by
+  have hnb : ¬ (x.borrow ≥ c.maxBorrow) := by omega
+  have hrecv : recvFromConn w me R key ch =
+      (setConn w f me (c.setChan ch { x with sub := rest, borrow := x.borrow + 1 }),
+       .some { key := key, origin := f, chunk := e.chunk, channel := ch } e.msg) := by
+    unfold recvFromConn
+    rw [hk]
+    simp only [hc, Conn.chan, hx]
+    rw [if_neg hnb]
+    simp only [hs]
+  rw [hrecv]
+  refine ⟨_, _, rfl, rfl, ?_⟩
+  have hx1 : (c.setChan ch { x with sub := rest, borrow := x.borrow + 1 }).chans[ch]? =
+      some { x with sub := rest, borrow := x.borrow + 1 } := getElem?_set_self' _ _ _ _ hx
+  have hrel : rcvRelease (setConn w f me (c.setChan ch { x with sub := rest, borrow := x.borrow + 1 })) me
+      { key := key, origin := f, chunk := e.chunk, channel := ch } =
+      setConn (setConn w f me (c.setChan ch { x with sub := rest, borrow := x.borrow + 1 })) f me
+        ((c.setChan ch { x with sub := rest, borrow := x.borrow + 1 }).setChan ch
+          { x with sub := rest, borrow := x.borrow + 1 - 1, comp := x.comp ++ [e.chunk] }) := by
+    unfold rcvRelease
+    simp only [getRcv_setConn, hR, hk, getConn_setConn_same, Conn.chan, hx1]
+    simp only [ne_eq, not_true_eq_false, if_false]
+    have : (c.setChan ch { x with sub := rest, borrow := x.borrow + 1 }).cap = c.cap ∧
+        (c.setChan ch { x with sub := rest, borrow := x.borrow + 1 }).maxBorrow = c.maxBorrow := ⟨rfl, rfl⟩
+    rw [this.1, this.2, if_pos hroom]
+  rw [hrel]
+  refine ⟨_, _, getConn_setConn_same _ _ _ _, getElem?_set_self' _ _ _ _ hx1, ?_, rfl, rfl⟩
+  simp
+
+theorem sendResponse_out (w : World) (s : Nat) (A : Active) (chunk tag : Nat) :
+    (sendResponse w s A chunk tag).2 = "ok" ∨ (sendResponse w s A chunk tag).2 = "PANIC" := by
+  unfold sendResponse
+  simp only []
+  split
+  · exact Or.inr rfl
+  · exact Or.inl rfl
+
+theorem map_loans_roundtrip (l : List Active) (a : Nat) :
+    ((l.map fun x => if x.label = a then { x with loans := x.loans + 1 } else x).map
+      fun x => if x.label = a then { x with loans := x.loans - 1 } else x) = l := by
+  rw [List.map_map]
+  conv => rhs; rw [← List.map_id l]
+  apply List.map_congr_left
+  intro x _
+  simp only [Function.comp, id]
+  by_cases h : x.label = a
+  · subst h; cases x; simp
+  · simp [h]
+
+/-- (repaired code, 1fb407e) a loan of a response that fails - `ExceedsMaxLoans` or `OutOfMemory` - leaves
+the active requests of the server, in particular every loan counter, exactly as they were -/
+theorem opRespond_failed_loan (w : World) (s a tag : Nat) (V : Server) (hV : getSv w s = some V)
+    (hout : (opRespond w s a tag).2 = "err:loan:OutOfMemory" ∨ (opRespond w s a tag).2 = "err:loan:ExceedsMaxLoans") :
+    ∃ V', getSv (opRespond w s a tag).1 s = some V' ∧ V'.actives = V.actives := by
+  unfold opRespond at hout ⊢
+  rw [hV] at hout ⊢
+  simp only [] at hout ⊢
+  split at hout
+  · rcases hout with h | h <;> simp at h
+  · next A hfind =>
+    split at hout
+    · next hlim => rw [if_pos hlim]; exact ⟨V, hV, rfl⟩
+    · next hlim =>
+      rw [if_neg hlim]
+      obtain ⟨V1, hV1, hact1⟩ := getSv_updActive_actives w s a (fun x => { x with loans := x.loans + 1 }) V hV
+      have k2 := (retrieveReturned_hk (updActive w s a fun x => { x with loans := x.loans + 1 }) (sid s)).1
+      have hV2 : getSv (retrieveReturned (updActive w s a fun x => { x with loans := x.loans + 1 }) (sid s)) s = some V1 := by
+        rw [k2.getSv_eq]; exact hV1
+      generalize retrieveReturned (updActive w s a fun x => { x with loans := x.loans + 1 }) (sid s) = w2 at hout hV2 ⊢
+      have hback : ∃ V', getSv (updActive w2 s a fun x => { x with loans := x.loans - 1 }) s = some V' ∧ V'.actives = V.actives := by
+        obtain ⟨V3, hV3, hact3⟩ := getSv_updActive_actives w2 s a (fun x => { x with loans := x.loans - 1 }) V1 hV2
+        exact ⟨V3, hV3, by rw [hact3, hact1]; exact map_loans_roundtrip _ _⟩
+      split at hout
+      · rcases hout with h | h <;> simp at h
+      · split at hout
+        · exact hback
+        · exact hback
+        · rcases hout with h | h <;> simp at h
+        · rcases sendResponse_out _ s A _ tag with h0 | h0 <;> (rw [h0] at hout; rcases hout with h | h <;> simp at h)
+
+end Iox2.ReqRes
